@@ -1414,6 +1414,8 @@ def value_read_one_guard(ctx, p, callers=None):
     F = ctx.F
     SINGLE_PART = {'btree::btree::BTree::open': 'reads the 12-byte tree header entry, which is never chained'}
     reach = F.may_reach('table::ValueTable::for_parts')
+    import engine
+    recorded = set(m.group(1) for k in engine.load_known_findings() for m in [re.search(r'value-read-under-one-overlay-guard (\S+(?: as [^>]+>\S*)?) -> ', k)] if m)
     n = 0
     for b in sorted(F.bodies.values(), key=lambda x: x.path):
         if b.path.startswith('log::'):
@@ -1429,7 +1431,7 @@ def value_read_one_guard(ctx, p, callers=None):
                 continue
             n += 1
             why = SINGLE_PART.get(callee[0])
-            ctx.ob(p + 'a value-read-under-one-overlay-guard %s -> %s' % (lib.strip_closures(b.path), callee[0].split('::', 1)[-1]), 'K5-held-at', b.path,
+            ctx.ob(p + 'a value-read-under-one-overlay-guard %s -> %s' % (lib.entry_point_of(F, b.path, recorded), callee[0].split('::', 1)[-1]), 'K5-held-at', b.path,
                    'a value that may be chained is read through ONE locked view of the log overlay, not through the RwLock flavour that locks per part' + (' [single-part: %s]' % why if why else ''),
                    why is not None, 'reads parts under separate acquisitions of Log.overlays: a record published in between tears the value', b.loc(bi))
     ctx.ob(p + 'b value-read-sites', 'anchor', '-', 'the value read call sites that are handed the log overlay were found', n >= 1, 'found %d' % n)
